@@ -166,7 +166,20 @@ func runC01(c *Ctx) {
 	// R9: a departed session leaves the delivery set before its peer is closed
 	const r9 = "C01.R9 departed sessions are removed from the broker"
 	ruleSessionRemoval(c, r9)
-	c.R.Floor(r9, 14)
+	ruleBrokerRemoval(c, r9)
+	c.R.Floor(r9, 18)
+
+	const r11 = "C01.R11 exclude_me is honoured whenever the publisher gives it"
+	pb := brk + "publish"
+	given := clause("exclude_me option given as a boolean", T(`^%msg\.Options\["exclude_me"\]\.\(bool\),ok#1$`))
+	c.Reach(r11, pb, "a given exclude_me value reaches the hand-off", ReachSpec{FromEdge: &given, Stop: `^store:&local:excludePub=%msg\.Options\["exclude_me"\]\.\(bool\),ok#0$`, Target: `^send:%b\.actionChan<-closure:`, Want: false})
+	c.AllMatch(r11, pb, "publisher exclusion is either the default or the option's value", `^store:&local:excludePub=`, `^store:&local:excludePub=(true|%msg\.Options\["exclude_me"\]\.\(bool\),ok#0)$`, 2)
+	c.Before(r11, pb, "default (exclude the publisher) is set before the option is examined", `^store:&local:excludePub=true$`, `^store:&local:excludePub=%msg`)
+	c.R.Floor(r11, 3)
+
+	const r10 = "C01.R10 an in-process subscriber cannot change the payload other subscribers (or the publisher) see"
+	ruleLocalCopies(c, r10)
+	c.R.Floor(r10, 8)
 }
 
 func ruleBrokerTables(c *Ctx, r3 string) {
